@@ -543,3 +543,47 @@ Theorem C14_judge_accepts_model_local_partial : forall b regs W ri,
   /\ judge regs W ri (run_request_gen (spec_params_b b) W ri) = true.
 Proof. exact judge_accepts_model_local. Qed.
 Print Assumptions C14_judge_accepts_model_local_partial.
+
+(* ------------------------------------------------------------------ *)
+(* TOWARD REMOVING the PredicateMismatch premise (Proofs/C14_h.v) -- statements with NO premise on the view bodies.
+   [first_ok sec deny site ctx a evs t r]: in the result [r] of a lookup loop the first body that ran is the body of
+   view [t], run on the attribute map [a] after the log [evs]; when its outcome is not a PredicateMismatch it is the
+   whole result. *)
+Require Import Verif.Proofs.C14_h.
+
+(* _call_view's candidate loop (with MultiView inside): the first body that runs is the one C03's lookup selects; when
+   the lookup selects nothing, nothing runs and nothing changes *)
+Theorem C14_comps_loop_first : forall P W (sec : bool) deny site ctx fpme rq l b a evs,
+  match (if sec then call_loop rq l b else call_loop_p P rq l b) with
+  | Ran t => first_ok P W sec deny site ctx a evs t
+               (comps_loop P W sec deny site ctx fpme rq l (pme_of b fpme) a evs)
+  | NotFoundPme => comps_loop P W sec deny site ctx fpme rq l (pme_of b fpme) a evs = (Some (Raise fpme), evs, a)
+  | NotFoundNone => comps_loop P W sec deny site ctx fpme rq l (pme_of b fpme) a evs = (None, evs, a)
+  end.
+Proof. exact comps_loop_first. Qed.
+Print Assumptions C14_comps_loop_first.
+
+Theorem C14_iev_pm_not_found_eq : forall P W ri site rr sec e st,
+  not_found (call_view_sec P (w_reg W) sec exc_classifier_id (exc_request P W ri e)) ->
+  iev_pm P W ri site rr sec e st = iev P W ri site rr sec e st.
+Proof. exact iev_pm_not_found_eq. Qed.
+Print Assumptions C14_iev_pm_not_found_eq.
+
+Theorem C14_iev_pm_first_body : forall P W ri site rr sec e st t,
+  call_view_sec P (w_reg W) sec exc_classifier_id (exc_request P W ri e) = Ran t ->
+  let a_in := set_all (p_set_in P) e (fst (hide_pop (p_hidden P) (st_attrs st) [])) in
+  exists rest, st_log (snd (iev_pm P W ri site rr sec e st))
+               = st_log st ++ snd (fst (run_body P W sec (ri_deny ri) site t e a_in)) ++ rest.
+Proof. exact iev_pm_first_body. Qed.
+Print Assumptions C14_iev_pm_first_body.
+
+(* C14_gen_no_view_propagates_same_object WITHOUT its premise no_pm: worlds whose view bodies raise PredicateMismatch
+   are covered.  Non-vacuity: Example gen_no_view_propagates_full_nonvacuous (a world with such a body). *)
+Theorem C14_gen_no_view_propagates_same_object_full : forall b W ri e st,
+  isa W cn_HTTPNotFound (fresh_pme site_tween) = true -> isa W cn_HTTPNotFound (fresh_nf site_tween) = true ->
+  not_found (call_view (w_reg W) exc_classifier_id (exc_request (spec_params_b b) W ri e)) ->
+  let r := gen_excview_tween (spec_params_b b) W ri site_tween (Raise e) st in
+  fst r = Raise e /\ st_log (snd r) = st_log st
+  /\ forall k, In k (p_hidden (spec_params_b b)) -> aget k (st_attrs (snd r)) = aget k (st_attrs st).
+Proof. exact gen_no_view_propagates_full. Qed.
+Print Assumptions C14_gen_no_view_propagates_same_object_full.
